@@ -221,6 +221,27 @@ theorem verify_from_running_ends_stopped_or_hangs (s : St) (p : Parked) (kn : Na
       (step s p kn .verify).1.st.stopHang = true ∧ (step s p kn .verify).1.st.doVerify = true) :=
   Rain.Loop.verify_from_running_ends_stopped_or_hangs s p kn l he hi hp hf
 
+/-- The two verify theorems for `Op.verifyHeld` (the verify command given while the harness leaves the storage
+gates as they are): the op does not release the gates, so that they are released is a hypothesis.  With a gate
+held the op ends `Allocating` / `Verifying` with the request pending — the situation in which finding C04-F6
+arose (examples at the end of the file). -/
+theorem verifyHeld_ends_stopped_or_hangs (s : St) (p : Parked) (kn : Nat → Bool) (l : Life s) (he : s.errC = false)
+    (hi : s.info = true) (hp : s.panicked = none) (hf : s.failOpen = false)
+    (hgo : s.gateOpen = false) (hgr : s.gateRead = false) :
+    (step s p kn .verifyHeld).1.st.doVerify = false ∧
+    ((step s p kn .verifyHeld).1.st.status = .stopped ∨
+      (s.stopHang = true ∧ (step s p kn .verifyHeld).1.st.status = .stopping ∧
+        (step s p kn .verifyHeld).1.st.stopHang = true)) :=
+  Rain.Loop.verifyHeld_ends_stopped_or_hangs s p kn l he hi hp hf hgo hgr
+
+theorem verifyHeld_from_running_ends_stopped_or_hangs (s : St) (p : Parked) (kn : Nat → Bool) (l : Life s)
+    (he : s.errC = true) (hi : s.info = true) (hp : s.panicked = none) (hf : s.failOpen = false)
+    (hgo : s.gateOpen = false) (hgr : s.gateRead = false) :
+    ((step s p kn .verifyHeld).1.st.status = .stopped ∧ (step s p kn .verifyHeld).1.st.doVerify = false) ∨
+    (s.stopHang = true ∧ (step s p kn .verifyHeld).1.st.status = .stopping ∧
+      (step s p kn .verifyHeld).1.st.stopHang = true ∧ (step s p kn .verifyHeld).1.st.doVerify = true) :=
+  Rain.Loop.verifyHeld_from_running_ends_stopped_or_hangs s p kn l he hi hp hf hgo hgr
+
 /-- … and the pending verify of the second case runs to the end when the stop timeout passes
 (`Op.waitstop`), the storage gates being released: `Stopped`, flag cleared. -/
 theorem pending_verify_waitstop (s : St) (p : Parked) (kn : Nat → Bool) (l : Life s)
@@ -743,6 +764,14 @@ example : (drun (s1h, none) (evsRS ++ [evStopHeld])).1.status = .stopping ∧
       = .stopped ∧
     (drun (s1h, none) (evsRS ++ [⟨.gate .read true, kn [1], [], []⟩, ⟨.waitstop, kn [1], [], []⟩])).1.status
       = .verifying := by decide
+/-- `verifyHeld_ends_stopped_or_hangs` / `verifyHeld_from_running_ends_stopped_or_hangs`: with the gates
+released `Op.verifyHeld` runs the verification to the end, like `Op.verify` -/
+example : (step s1e none (fun _ => false) .verifyHeld).1.st.status = .stopped ∧
+    (step s1e none (fun _ => false) .verifyHeld).1.st.doVerify = false ∧
+    (step s1e none (fun _ => false) .verifyHeld).1.st.bf = some [false] ∧
+    (drun (s1, none) (evs1 ++ [⟨.verifyHeld, kn [1], [], []⟩])).1.status = .stopped ∧
+    (drun (s1, none) (evs1 ++ [⟨.verifyHeld, kn [1], [], []⟩])).1.bf = some [true] ∧
+    (drun (s1, none) evs1).1.gateOpen = false ∧ (drun (s1, none) evs1).1.gateRead = false := by decide
 /-- the same with `Op.stop` (gates released by the harness) -/
 example : (drun (s1e, none) (evsRV ++ [⟨.stop, kn [], [], []⟩])).1.status = .stopped ∧
     (drun (s1e, none) (evsRV ++ [⟨.stop, kn [], [], []⟩])).1.doVerify = false ∧
